@@ -16,13 +16,23 @@ SH = ["p1_code2", "p1_optint_d", "p1_optbool_f", "p1_int", "p1_int_d", "p1_str_s
 ARGP = [s for s in SH if s in C04.EXPR]
 
 
+from collections import OrderedDict as _OD
+
+# a return entry whose prose is long enough to wrap at every width of the range, and which carries no default
+LONG_RET = {"name": None, "type": "static", "doc": "Short summary",
+            "params": _OD([("a", {"typ": "int", "doc": "the a", "default": 5})]),
+            "returns": _OD([("return_type", {"typ": "Tuple[int, int]", "doc": "the pair of counters that the caller is expected to add up and to "
+                                                                            "report back to the coordinator once every shard has been processed - "
+                                                                            "never None"})])}
+
+
 def stab_wrap(kind, i, W, sep_tab):
     """word_wrap ON with the C18 pool of long texts and a symbolic width: the second and third emission are identical"""
     from harness import C18
     from lib.domain import emit_kind, parse_kind
     from harness.rt import _art_eq
 
-    ir = C18.POOL[i]
+    ir = LONG_RET if i == 9 else C18.POOL[i]
     undo = C18._bind(W)
     try:
         o = {"word_wrap": True, "emit_default_doc": True, "sep_tab": bool(sep_tab), "indent_level": 1}
@@ -89,5 +99,13 @@ def obligations(tier, seed):
                               bounds="word_wrap on, emitter %s, C18 pool IR %d (long summary / prose / type strings), every width %d <= W < %d "
                               "(symbolic): second and third emission identical" % (kind, i, a, b), timeout=240 if tier == "quick" else 900,
                               path_timeout=120, funcs=FUNCS))
+    for kind in ("function", "method", "class", "rest"):
+        for a, b in ((60, 85), (85, 125)):
+            if tier == "quick" and (kind in ("class", "rest")) == (a == 60):
+                continue
+            obs.append(Ob(name="stab_wrap_%s_longret_w%d" % (kind, a), params=[("W", "int")], pre=["%d <= W < %d" % (a, b)],
+                          body="H.stab_wrap(%r, 9, W, 1)" % kind, witness=(a + 10,),
+                          bounds="word_wrap on, emitter %s, a return entry with long prose and no default, every width %d <= W < %d (symbolic): second "
+                          "and third emission identical" % (kind, a, b), timeout=240 if tier == "quick" else 900, path_timeout=120, funcs=FUNCS))
     obs += gridrun.obligations('C08', tier, FUNCS)
     return obs
